@@ -506,5 +506,9 @@ func checkC14(r *Report, known []Finding) {
 		c := cases[len(cases)/2]
 		r.Sample(map[string]any{"pattern": c.pattern, "haystack": fmt.Sprintf("%q", c.h), "at": c.at, "engine": c.engine, "op": c.op, "answer": c.got})
 	}
+	// the one-pass DFA and the Pike VM's capture entry points are engines of this property too: their model ties (build accept/reject,
+	// Search/IsMatch at every offset against the proved-equal Lean models and the reference) are shared with C03
+	c14ReverseTie(r)
+	c03EngineTies(r, known, NewRNG(r.Seed^0xC14))
 	replayKnownExamples(r, known, "C14")
 }
